@@ -127,7 +127,7 @@ CLAIMED = {
  'C11': ('Partial proof: machine-checked theorems (Lean 4, Mathlib calculus) about the rows [q x n, n] built by SP.inverseJacobian and the wrench sum of SP.sumActuatorWrenches: the moment arm may be taken from either joint (t x n = b x n); '
          'row . twist is the leg-direction component of the top joint velocity, and the leg length along any differentiable path of the top joint whose velocity is that of a rigid motion with spatial twist V has derivative row . V (HasDerivAt); '
          'for any leg forces the summed leg wrench on the base is minus invJ^T tau (induction over legs), hence forces carrying W load the base with -W and map back to W. '
-         'The model functions are compared with the real methods; the body-frame interface equals the space-frame one on the frame-changed wrench ((Ad J)^T W_b = J^T (Ad^T W_b), for any Jacobian); the derivative (Richardson), equilibrium, body-frame and carryMassCalc clauses are also evaluated on real platforms at arbitrary placements the wrench bookkeeping of carryMassCalc is modelled (applied wrench + top plate weight at the plate origin + shaft weights on the legs at the shaft centre of gravity) and compared with the real method through the leg forces it returns; its force part is the applied force plus (m_top + n m_shaft) g for any number of legs (the inverse body map is sampled only).',
+         'The model functions are compared with the real methods; the body-frame interface equals the space-frame one on the frame-changed wrench ((Ad J)^T W_b = J^T (Ad^T W_b), for any Jacobian); the derivative (Richardson), equilibrium, body-frame and carryMassCalc clauses are also evaluated on real platforms at arbitrary placements the wrench bookkeeping of carryMassCalc is modelled (applied wrench + top plate weight at the plate origin + shaft weights on the legs at the shaft centre of gravity) and compared with the real method through the leg forces it returns; its force part is the applied force plus (m_top + n m_shaft) g and its moment part the applied moment plus the moments of those weights about the origin, for any number of legs (the inverse body map is sampled only).',
          'Trusted: Lean kernel, Mathlib, independent exp6/Ad/leg lengths in the harness; np.linalg.pinv is an oracle (inverse of an invertible matrix).',
          'Lean 4 proofs (vector algebra by certificates, HasDerivAt for the length derivative, induction over legs) + differential correspondence + Richardson / equilibrium falsifier on real platforms',
          'DESIGN.md section 5 C11'),
